@@ -93,7 +93,8 @@ def render_sel(sel, sp):
         return sp.tok["keys"]
     k = sel[0]
     if k == "name":
-        if getattr(sp, "bare", 0) and shorthand_ok(sel[1]) and sp.rng.random() < sp.bare:
+        # (a bare name must not begin with an identifier token such as `_`: the lexer tries those first)
+        if getattr(sp, "bare", 0) and shorthand_ok(sel[1], after_descent=True) and sp.rng.random() < sp.bare:
             return sel[1]          # a bare member name inside brackets (non-standard, accepted)
         return sp.string(sel[1])
     if k == "idx":
@@ -208,7 +209,8 @@ def render_path(path, sp, implicit_root=False):
     root = sp.tok["fake"] if path["fake"] else ("" if implicit_root else sp.tok["root"])
     segs = path["segs"]
     if (implicit_root and not path["fake"] and getattr(sp, "bare", 0) and segs and isinstance(segs[0], list) and segs[0][0] == "sel"
-            and isinstance(segs[0][1], list) and segs[0][1][0] == "name" and sp.rng.random() < 0.6):
+            and isinstance(segs[0][1], list) and segs[0][1][0] == "name" and shorthand_ok(segs[0][1][1], after_descent=True)
+            and sp.rng.random() < 0.6):
         return segs[0][1][1] + render_segs(segs[1:], sp)      # a root-less query may begin with a bare name
     return root + render_segs(segs, sp)
 
